@@ -258,7 +258,7 @@ def jobs(tier, seed):
     P, Pn, C = {'type': 'proc', 'catch': True}, {'type': 'proc', 'catch': False}, {'type': 'cb', 'catch': True}
     wsets = [[], [P], [Pn], [C], [P, P], [P, C], [C, P], [P, Pn], [Pn, P], [C, C], [P, C, P]]
     if tier != 'quick':
-        wsets += [[P, P, P], [C, Pn, P], [P, C, Pn, C], [Pn, Pn], [C, P, C, P]]
+        wsets += [[P, P, P], [C, Pn, P], [P, C, Pn, C], [Pn, Pn], [C, P, C, P], [P, P, P, P], [P, Pn, C, P, C]]
     for target in ('succeed', 'fail', 'child-return', 'child-raise'):
         for wi, ws in enumerate(wsets):
             sorts = ('int', 'real', 'mixed')[wi % 3]
